@@ -1,28 +1,32 @@
 #!/usr/bin/env python3
-"""Function translator, anstyle rendering: crates/anstyle/src/color.rs -> coq/Generated/RenderFn.v (C05).
+"""Function translator, anstyle rendering: crates/anstyle/src/{color.rs,effect.rs,style.rs,reset.rs}
+-> coq/Generated/RenderFn.v (C05).  Notes: HACKING.d/render.md.
 
 TRANSLATED (tools/rs2v) into Gallina over the Rust data layout of DisplayBuffer
 (Model/Render.v: `rn_dbuf` = { buffer: [u8; 19], len }) and the colour types of the hand model
-(Generated/Style.v `ansi_color`; an Ansi256Color is its index, an RgbColor a triple):
-  DisplayBuffer::{write_str, write_code, as_str}
-  AnsiColor::{as_fg_str, as_bg_str, as_fg_buffer, as_bg_buffer, as_underline_buffer}
-  Ansi256Color::{index, from_ansi, as_fg_buffer, as_bg_buffer, as_underline_buffer},
-  `impl From<AnsiColor> for Ansi256Color`::from
-  RgbColor::{r, g, b, as_fg_buffer, as_bg_buffer, as_underline_buffer}
-  Color::{render_fg, render_bg, render_underline}    (the DisplayBuffer they return as `impl Display`)
-Proofs/RenderGen.v proves every translation equal to the hand model (Model/Render.v) the theorems
-of C05 are about, the 19-byte array + length related to the model's byte list by
-`rn_dbuf_abs` (= buffer[0..len], which is DisplayBuffer::as_str).
+(Generated/Style.v `ansi_color`; an Ansi256Color is its index, an RgbColor a triple, a Color the Rust enum
+`rn_color_view`, a Style the record of Model/Style.v):
+  color.rs   DisplayBuffer::{write_str, write_code, as_str, write_to}, impl Display for DisplayBuffer / NullFormatter,
+             AnsiColor::{as_fg_str, as_bg_str, as_*_buffer, render_fg, render_bg, on, on_default},
+             Ansi256Color::{index, from_ansi, as_*_buffer, render_fg, render_bg, on, on_default}, impl From<AnsiColor> / From<u8>,
+             RgbColor::{r, g, b, as_*_buffer, render_fg, render_bg, on, on_default}, impl From<(u8, u8, u8)>,
+             Color::{render_fg, render_bg, render_underline, write_fg_to, write_bg_to, write_underline_to, on, on_default},
+             the five impl From<_> for Color
+  effect.rs  impl Display for EffectsDisplay, Effects::write_to   (Effects::render / index_iter and
+             EffectIndexIter::next are the translations of Generated/StyleFn.v, named in the vocabulary)
+  reset.rs   Reset::render, impl Display for Reset
+  style.rs   Style::{render, fmt_to, render_reset, write_to, write_reset_to}, impl Display for Style / StyleDisplay
+Proofs/RenderGen.v proves every translation equal to the hand model (Model/Render.v) the theorems of C05 are
+about: the 19-byte array + length related to the model's byte list by `rn_dbuf_abs`; a Formatter is the hand
+model's `rn_fmt` over a scripted sink (`rn_fmtr`), `&mut dyn io::Write` the scripted writer of Spec/Io.v.
 
-NOT translated (hand-modelled in Model/Render.v, pinned by token hash below):
-  Style::fmt_to, impl Display for DisplayBuffer      core::fmt::Formatter / `dyn Display` plumbing
-  DisplayBuffer::write_to, Color::write_*_to         `&mut dyn io::Write` trait objects"""
+NOT translated: macros.rs (`escape!` is expanded by the vocabulary, the file is pinned by token hash)."""
 import os
 import sys
 
 sys.path.insert(0, os.path.dirname(os.path.abspath(__file__)))
 from rs2v.driver import translate, TranslateError, token_hash, fn_source   # noqa: E402
-from rs2v.rparser import parse_file, find_items, ParseError, type_name, parse_macro_args   # noqa: E402
+from rs2v.rparser import N, parse_file, find_items, ParseError, type_name, parse_macro_args   # noqa: E402
 from rs2v.lexer import LexError   # noqa: E402
 
 U8, USZ = ("int", "u8"), ("int", "usize")
@@ -57,13 +61,58 @@ def m_enumerate(em, e, rt, rty, env, k):
     return k("(rn_enumerate %s)" % rt, ("list", ("tuple", (USZ, rty[1]))), env)
 
 
+BOOL, UNIT = ("bool",), ("unit",)
+U16 = ("int", "u16")
+COLOR = ("enum", "Color")
+FMT, NF, WRITER = ("struct", "Formatter"), ("struct", "NullFormatter"), ("coq", "writer")
+EFF, EFFD, IITER, META = ("struct", "Effects"), ("struct", "EffectsDisplay"), ("struct", "EffectIndexIter"), ("struct", "Metadata")
+STYLE, SDISP, RESET_T = ("struct", "Style"), ("struct", "StyleDisplay"), ("struct", "Reset")
+
+
+def res(t):
+    return ("res", t)
+
+
+def shape(coq, self_mode, params, ret, total=True):
+    return {"coq": coq, "self": self_mode, "params": params, "ret": ret, "total": total, "cfg": False}
+
+
+def m_identity(em, e, rt, rty, env, k):
+    """`background.into()` with `background: impl Into<Color>` read as a Color: the identity"""
+    return k(rt, rty, env)
+
+
+def m_into_color(fn_key):
+    """`x.into()` where a Color is wanted: the TRANSLATED `impl From<X> for Color`"""
+    def m(em, e, rt, rty, env, k):
+        sh = em.fn_shapes.get(fn_key)
+        if sh is None:
+            raise TranslateError("%s is not translated yet" % fn_key)
+        return em.call_shape(sh, None, [N("term", term=rt, ty=rty)], env, k)
+    return m
+
+
+ENUM_COLOR = {"coq": "rn_color_view", "var": "co", "variants": {"Ansi": "RvAnsi", "Ansi256": "RvAnsi256", "Rgb": "RvRgb"},
+              "payload": {"Ansi": [ANSI], "Ansi256": [A256], "Rgb": [RGB]}}
+
+# what `impl core::fmt::Display + Copy` is in each `render*` function (rustc infers it from the body;
+# a body of another type makes the callers' `.fmt(f)` ill-typed in Coq)
+RET_TYPES = {
+    "Color::render_fg": DBUF, "Color::render_bg": DBUF, "Color::render_underline": DBUF,
+    "AnsiColor::render_fg": NF, "AnsiColor::render_bg": NF,
+    "Ansi256Color::render_fg": DBUF, "Ansi256Color::render_bg": DBUF,
+    "RgbColor::render_fg": DBUF, "RgbColor::render_bg": DBUF,
+    "Style::render": SDISP, "Style::render_reset": NF, "Reset::render": RESET_T,
+}
+
 VOCAB = {
-    "reserved": ["d", "a", "i", "c", "b"],
+    "reserved": ["d", "a", "i", "c", "b", "f", "s", "e", "w", "metadata", "style", "color"],
+    "no_transparent": ("into",),
+    "for_ret_state": True,
     "enums": {
         "AnsiColor": {"coq": "ansi_color", "var": "a", "variants": {n: n for n in ANSI_NAMES}},
         # Model/Render.v rn_color_view: the Rust enum with its payloads as they are
-        "Color": {"coq": "rn_color_view", "var": "co", "variants": {"Ansi": "RvAnsi", "Ansi256": "RvAnsi256", "Rgb": "RvRgb"},
-                  "payload": {"Ansi": [ANSI], "Ansi256": [A256], "Rgb": [RGB]}},
+        "Color": ENUM_COLOR,
     },
     "structs": {
         "DisplayBuffer": {"coq": "rn_dbuf", "var": "d", "fields": {
@@ -72,40 +121,90 @@ VOCAB = {
         "RgbColor": {"coq": "(N * N * N)", "var": "c", "fields": {
             "0": ("rn_rgb_f0", None, U8), "1": ("rn_rgb_f1", None, U8), "2": ("rn_rgb_f2", None, U8)}},
         "Ansi256Color": {"coq": "N", "var": "i", "fields": {"0": ("rn_a256_f0", None, U8)}},
+        "NullFormatter": {"coq": "(list N)", "var": "nf", "fields": {"0": ("rn_nf_f0", None, BYTES)}},
+        # core::fmt::Formatter as far as this code uses it (Model/Render.v rn_fmtr): the hand model's rn_fmt (the text
+        # written so far, the alternate flag, width / fill / align / precision: carried along, nothing below reads
+        # them) over a sink that answers write_str from a script (a String sink never fails: empty script)
+        "Formatter": {"coq": "rn_fmtr", "var": "f", "fields": {}},
+        # effect.rs (the functions of Effects / EffectIndexIter are the ones of Generated/StyleFn.v)
+        "Effects": {"coq": "N", "var": "e", "fields": {"0": ("eff_f0", "set_eff_f0", U16)}},
+        "EffectsDisplay": {"coq": "N", "var": "ed", "fields": {"0": ("effd_f0", None, EFF)}},
+        "EffectIndexIter": {"coq": "eff_iter", "var": "it", "fields": {
+            "index": ("ei_index", "set_ei_index", USZ), "effects": ("ei_effects", "set_ei_effects", EFF)}},
+        "Metadata": {"coq": "(list N * list N)", "var": "md", "fields": {
+            "name": ("md_name", None, BYTES), "escape": ("md_escape", None, BYTES)}},
+        # style.rs: the hand model's record; the colour slots are read as the Rust enum
+        "Style": {"coq": "style", "var": "s", "eqb": "style_eqb", "fields": {
+            "fg": ("rn_st_fg", None, ("opt", COLOR)), "bg": ("rn_st_bg", None, ("opt", COLOR)),
+            "underline": ("rn_st_ul", None, ("opt", COLOR)), "effects": ("st_eff", None, EFF)}},
+        "StyleDisplay": {"coq": "style", "var": "sd", "fields": {"0": ("rn_sd_f0", None, STYLE)}},
+        "Reset": {"coq": "unit", "var": "rs", "fields": {}},
     },
-    "type_alias": {"str": BYTES},
-    "consts": {"DISPLAY_BUFFER_CAPACITY": ("rn_display_buffer_capacity", USZ)},
+    "type_alias": {"str": BYTES, "Formatter": FMT},
+    # `&mut dyn std::io::Write` is the scripted writer of Spec/Io.v; `impl Into<Color>` is read as a Color (`.into()` on it
+    # is the identity: the conversions themselves are the translated From impls)
+    "opaque_types": {"std::io::Write": WRITER, "Into<Color>": COLOR},
+    "ret_types": RET_TYPES,
+    "consts": {"DISPLAY_BUFFER_CAPACITY": ("rn_display_buffer_capacity", USZ),
+               "RESET": ("rn_reset_str", BYTES),               # Generated/Render.v, read from reset.rs by gen_render.py
+               "METADATA": ("metadata", ("list", META))},      # Generated/Style.v
     "fns": {
         "DisplayBuffer::default": {"coq": "rn_dbuf_default", "self": None, "params": [], "ret": DBUF, "total": True, "cfg": False},
         "Self": f_self_ctor,
         # core::str::from_utf8_unchecked: the bytes themselves (the model has no str / [u8] distinction;
         # that only &str values are ever stored is the SAFETY comment of as_str, not modelled)
         "str::from_utf8_unchecked": {"coq": "rn_from_utf8_unchecked", "self": None, "params": [("in", BYTES)], "ret": BYTES, "total": True, "cfg": False},
+        "NullFormatter": shape("rn_nf_new", None, [("in", BYTES)], NF),
+        "StyleDisplay": shape("rn_sd_new", None, [("in", STYLE)], SDISP),
+        # translated in Generated/StyleFn.v (C13), proved there equal to st_new / st_fg_color / st_bg_color
+        "Style::new": shape("g_st_new", None, [], STYLE),
     },
-    "methods": {("list", "enumerate"): m_enumerate},
+    "methods": {
+        ("list", "enumerate"): m_enumerate,
+        # Formatter::write_str appends to the sink and answers Ok(()), or the sink fails: Err, nothing appended;
+        # no padding, no truncation: the flags are not looked at
+        ("Formatter", "write_str"): shape("rn_fw_write_str", "inout", [("in", BYTES)], res(UNIT)),
+        ("Formatter", "alternate"): shape("fr_alternate", "in", [], BOOL),
+        # `&mut dyn io::Write`: the scripted writer of Spec/Io.v, write_all is std's default method
+        ("coq", "write_all"): shape("w_write_all", "inout", [("in", BYTES)], res(UNIT)),
+        # Generated/StyleFn.v
+        ("Effects", "index_iter"): shape("g_eff_index_iter", "in", [], IITER),
+        ("Effects", "render"): shape("g_eff_render", "in", [], EFFD),
+        ("Style", "fg_color"): shape("rn_st_fg_color", "in", [("in", ("opt", COLOR))], STYLE),
+        ("Style", "bg_color"): shape("rn_st_bg_color", "in", [("in", ("opt", COLOR))], STYLE),
+        ("Color", "into"): m_identity,
+        ("AnsiColor", "into"): m_into_color("Color::from<AnsiColor>"),
+        ("Ansi256Color", "into"): m_into_color("Color::from<Ansi256Color>"),
+        ("RgbColor", "into"): m_into_color("Color::from<RgbColor>"),
+    },
+    # `for index in effects.index_iter()`: the items of the translated `next`, collected (Model/Imp.v iter_drain)
+    "iter_conv": {"EffectIndexIter": ("iter_drain g_eff_index_iter_next (S (length metadata))", True, USZ)},
     "macros": {"escape": m_escape},
     "opaque": {},
 }
 
-HEADER = "(* GENERATED by tools/gen_fn_render.py (tools/rs2v) from crates/anstyle/src/{color.rs,macros.rs} -- do not edit *)"
+HEADER = "(* GENERATED by tools/gen_fn_render.py (tools/rs2v) from crates/anstyle/src/{color.rs,effect.rs,style.rs,reset.rs,macros.rs} -- do not edit *)"
 REQ = """From Coq Require Import NArith List Bool.
-From AV Require Import Generated.Style Generated.Render Model.Base Model.Imp Model.Style Model.Render.
+From AV Require Import Generated.Style Generated.Render Spec.Io Model.Base Model.Imp Model.Style Generated.StyleFn Model.Render.
 Import ListNotations.
 Local Open Scope N_scope.
 Local Open Scope bool_scope."""
 
-# hand-modelled functions (Model/Render.v), pinned: (file, impl, fn) -> token hash
-PINS = {
-    ("color.rs", "Color", "write_fg_to"): "9d0e0af8a051e79f",
-    ("color.rs", "Color", "write_bg_to"): "0a7fc6e8ecb1464c",
-    ("color.rs", "Color", "write_underline_to"): "69563dc100a24c8c",
-    ("color.rs", "DisplayBuffer", "write_to"): "600006303cf9d4f9",
-    ("color.rs", "DisplayBuffer", "fmt"): "b92834ee39b95b86",
-    ("color.rs", "NullFormatter", "fmt"): "b7b2502645ea2594",
-    ("style.rs", "Style", "fmt_to"): "74245fd5e5408884",
-    ("style.rs", "Style", "write_to"): "206332c25ad113ec",
-}
+# hand-modelled, pinned: (file, impl, fn) -> token hash.  Empty since Style::fmt_to, the Display impls and the
+# io::Write functions are translated; macros.rs stays pinned because the vocabulary expands escape! by hand.
+PINS = {}
 MACRO_PIN = "7ded2b12d236c49e"
+
+
+def voc(err, checked):
+    """the vocabulary with `Result` read as core::fmt::Result (err = "unit") or io::Result (err = "ekind");
+    `checked`: the structs whose definition is in the file being translated"""
+    v = dict(VOCAB)
+    v["result"] = {"err": err}
+    v["structs"] = {n: dict(st, check=(n in checked)) for n, st in VOCAB["structs"].items()}
+    if err == "unit":
+        v["type_alias"] = dict(VOCAB["type_alias"], Result=res(UNIT))
+    return v
 
 
 def check_enum(items, name, expected):
@@ -128,11 +227,28 @@ def pins(srcs):
     return out
 
 
+def f_self_ctor2(em, e, env, k):
+    """`Self(x)` in `impl Ansi256Color` / `impl From<u8> for Ansi256Color`, `Self(r, g, b)` in `impl From<(u8, u8, u8)> for RgbColor`"""
+    if em.self_struct == "RgbColor" and len(e.args) == 3:
+        return em.exprs(e.args, env, lambda ts, _tys, env1: k("(%s)" % ", ".join(ts), RGB, env1))
+    return f_self_ctor(em, e, env, k)
+
+
+FROM_FNS = {
+    "Self": f_self_ctor2,
+    "Color::Ansi": shape("RvAnsi", None, [("in", ANSI)], COLOR),
+    "Color::Ansi256": shape("RvAnsi256", None, [("in", A256)], COLOR),
+    "Color::Rgb": shape("RvRgb", None, [("in", RGB)], COLOR),
+}
+
+
 def register(generators, gm):
     def gen():
         try:
             col = gm.read("crates/anstyle/src/color.rs")
             sty = gm.read("crates/anstyle/src/style.rs")
+            eff = gm.read("crates/anstyle/src/effect.rs")
+            rst = gm.read("crates/anstyle/src/reset.rs")
             mac = gm.read("crates/anstyle/src/macros.rs")
             try:
                 citems = parse_file(col)
@@ -147,6 +263,10 @@ def register(generators, gm):
                 if h != PINS[key]:
                     raise TranslateError("%s %s::%s changed (token hash %s, pinned %s): it is modelled by hand (Model/Render.v) and must be re-read"
                                          % (key[0], key[1], key[2], h, PINS[key]))
+            COLOR_RS = ["DisplayBuffer", "RgbColor", "Ansi256Color", "NullFormatter"]
+            shapes = {}
+            out = []
+            # ---- color.rs: the buffers and their Display impls (core::fmt::Result)
             targets = [
                 ("write_str", "DisplayBuffer", "gr_write_str", {}),
                 ("write_code", "DisplayBuffer", "gr_write_code", {}),
@@ -165,7 +285,65 @@ def register(generators, gm):
                 targets.append((f, "AnsiColor", "gr_ansi_%s" % f[3:], {}))
             for f in ("render_fg", "render_bg", "render_underline"):
                 targets.append((f, "Color", "gr_color_%s" % f, {}))
-            return translate(col, VOCAB, targets, HEADER, REQ, {}) + "\n"
+            targets += [
+                ("fmt", "DisplayBuffer", "gr_dbuf_fmt", {"trait": "Display"}),
+                ("fmt", "NullFormatter", "gr_null_fmt", {"trait": "Display"}),
+            ]
+            for impl, pre in (("AnsiColor", "gr_ansi"), ("Ansi256Color", "gr_a256"), ("RgbColor", "gr_rgb")):
+                for f in ("render_fg", "render_bg"):
+                    targets.append((f, impl, "%s_%s" % (pre, f), {}))
+            out.append(translate(col, voc("unit", COLOR_RS), targets, HEADER, REQ, shapes))
+            # ---- color.rs: the io::Write side (io::Result)
+            out.append(translate(col, voc("ekind", COLOR_RS), [
+                ("write_to", "DisplayBuffer", "gr_dbuf_write_to", {}),
+                ("write_fg_to", "Color", "gr_color_write_fg_to", {}),
+                ("write_bg_to", "Color", "gr_color_write_bg_to", {}),
+                ("write_underline_to", "Color", "gr_color_write_underline_to", {}),
+            ], "", "", shapes))
+            # ---- effect.rs
+            out.append(translate(eff, voc("unit", ["Effects", "EffectsDisplay", "EffectIndexIter", "Metadata"]), [
+                ("fmt", "EffectsDisplay", "gr_effects_fmt", {"trait": "Display"}),
+            ], "", "", shapes))
+            out.append(translate(eff, voc("ekind", []), [
+                ("write_to", "Effects", "gr_effects_write_to", {}),
+            ], "", "", shapes))
+            # ---- reset.rs
+            out.append(translate(rst, voc("unit", ["Reset"]), [
+                ("render", "Reset", "gr_reset_render", {}),
+                ("fmt", "Reset", "gr_reset_fmt", {"trait": "Display"}),
+            ], "", "", shapes))
+            # ---- style.rs
+            out.append(translate(sty, voc("unit", ["Style", "StyleDisplay"]), [
+                ("render", "Style", "gr_style_render", {}),
+                ("fmt_to", "Style", "gr_style_fmt_to", {}),
+                ("render_reset", "Style", "gr_style_render_reset", {}),
+                ("fmt", "Style", "gr_style_fmt", {"trait": "Display"}),
+                ("fmt", "StyleDisplay", "gr_style_display_fmt", {"trait": "Display"}),
+            ], "", "", shapes))
+            out.append(translate(sty, voc("ekind", []), [
+                ("write_to", "Style", "gr_style_write_to", {}),
+                ("write_reset_to", "Style", "gr_style_write_reset_to", {}),
+            ], "", "", shapes))
+            # ---- color.rs: conversions and the `on` / `on_default` constructors of a Style
+            v = voc("unit", COLOR_RS)
+            v["fns"] = dict(VOCAB["fns"], **FROM_FNS)
+            v["methods"] = dict(VOCAB["methods"])
+            v["methods"][("int", "into")] = m_into_color("Ansi256Color::from<u8>")
+            v["methods"][("tuple", "into")] = m_into_color("RgbColor::from<(u8,u8,u8)>")
+            ftargets = [
+                ("from", "Ansi256Color", "gr_a256_from_u8", {"trait": "From", "trait_arg": "u8", "key": "Ansi256Color::from<u8>"}),
+                ("from", "RgbColor", "gr_rgb_from_tuple", {"trait": "From", "key": "RgbColor::from<(u8,u8,u8)>"}),
+                ("from", "Color", "gr_color_from_ansi", {"trait": "From", "trait_arg": "AnsiColor", "key": "Color::from<AnsiColor>"}),
+                ("from", "Color", "gr_color_from_a256", {"trait": "From", "trait_arg": "Ansi256Color", "key": "Color::from<Ansi256Color>"}),
+                ("from", "Color", "gr_color_from_rgb", {"trait": "From", "trait_arg": "RgbColor", "key": "Color::from<RgbColor>"}),
+                ("from", "Color", "gr_color_from_u8", {"trait": "From", "trait_arg": "u8", "key": "Color::from<u8>"}),
+                ("from", "Color", "gr_color_from_tuple", {"trait": "From", "trait_arg": "tuple", "key": "Color::from<(u8,u8,u8)>"}),
+            ]
+            for impl, pre in (("Color", "gr_color"), ("AnsiColor", "gr_ansi"), ("Ansi256Color", "gr_a256"), ("RgbColor", "gr_rgb")):
+                ftargets.append(("on", impl, pre + "_on", {}))
+                ftargets.append(("on_default", impl, pre + "_on_default", {}))
+            out.append(translate(col, v, ftargets, "", "", shapes))
+            return "\n".join(out) + "\n"
         except TranslateError as e:
             raise gm.GenError(str(e))
     generators["RenderFn"] = gen
